@@ -1,4 +1,4 @@
-CONSTANTS MaxN = 3 MaxParents = 2 MaxDup = 1 Limits <- LimitsE Sizes <- SizesQ BigSize = 0 MaxExt = 1 FailKinds <- FailNone
+CONSTANTS MaxN = 3 MaxParents = 2 MaxDup = 1 Limits <- LimitsE1 Sizes <- SizesQ BigSize = 0 MaxExt = 2 FailKinds <- FailNone
 SPECIFICATION Spec
 INVARIANT EmitScen
 CHECK_DEADLOCK FALSE
